@@ -118,6 +118,22 @@ Theorem C27_forged_econtent_document_not_unmodified :
 Proof. exact forged_econtent_document_not_unmodified. Qed.
 Print Assumptions C27_forged_econtent_document_not_unmodified.
 
+(* ---- several signers in one CMS ---- *)
+(* validateAll: "valid" iff there is a signer and EVERY signer of the CMS was verified completely *)
+Theorem C27_all_valid_iff_every_signer_verified :
+  forall auth signers,
+  p7StatusOf auth true signers = StValid <->
+  signers <> [] /\ forall s, In s signers -> signerComplete s = true.
+Proof. exact all_valid_iff_every_signer_verified. Qed.
+Print Assumptions C27_all_valid_iff_every_signer_verified.
+
+(* validateAll: a signer at ANY position whose signature or digest fails makes the result invalid *)
+Theorem C27_all_tampered_signer_invalid :
+  forall auth signers s,
+  In s signers -> signerFails s = true -> p7StatusOf auth true signers = StInvalid.
+Proof. exact all_tampered_signer_invalid. Qed.
+Print Assumptions C27_all_tampered_signer_invalid.
+
 (* non-vacuity: "AB<4a>CD" vs "AX<4a>CD", /ByteRange [0 2 6 2]: both pass signedData, offset 1 is
    signed, the signed data differ; with the identity as digest the second is not accepted *)
 Example C27_nonvacuous :
